@@ -93,7 +93,8 @@ def d2(ctx, F):
     for p in pairs:
         pv = flow.derived(hs, {p.dest["l"]}, calls=())
         sp = [c for c in spawns if any(op_local(a) in pv for a in c.args) and hs.dominates(p.bb, c.bb)]
-        ins = [c for c in inserts if hs.dominates(p.bb, c.bb) and op_local(c.args[2]) in flow.derived(hs, {p.dest["l"]}, calls="all")]
+        # (the entry may be made after the two kinds' arms have joined: reachable from this pair() and fed by its result)
+        ins = [c for c in inserts if c.bb in hs.reachable(p.bb) and op_local(c.args[2]) in flow.derived(hs, {p.dest["l"]}, calls="all")]
         ctx.check(len(sp) == 1 and len(ins) == 1, "C17.D2.per-topic", "per-topic:%s" % p.callee.split("::")[-3],
                   "each new %s topic gets its own spawned router task and its own channel entry" % p.callee.split("::")[-3], p.span)
     # every stream registration runs in its own task: handle_stream is only ever called from a future handed to tokio::spawn, so a
